@@ -13,8 +13,8 @@ from pgv import core  # noqa: E402
 
 # property -> (Lean modules to build, Gen files to regenerate, drivers)
 CONFIG = {
-    "C01": dict(gen=["Units"], drivers=["Units"]),
-    "C20": dict(gen=["Registry"], drivers=["Registry"]),
+    "C01": dict(gen=["Units", "Accessors"], drivers=["Units"]),
+    "C20": dict(gen=["Registry", "Units", "Accessors"], drivers=["Registry", "Accessor"]),
     "C11": dict(gen=["Models"], drivers=["ModelsF", "SpreadPoint"], extra_prop_files=["PgVerif/Tie/Models.lean"]),
     "C12": dict(gen=["Models"], drivers=["Fit"]),
     "C13": dict(gen=["Models"], drivers=["Iast"]),
